@@ -303,7 +303,7 @@ def thread_build(seed, i, tier):
     buffered_fam = ns.families[fam]["buffered"]
     kind = G.pick(rs, ["dict", "list"])
     cfg = {"prop": ID, "family": fam, "kind": kind, "wc": rs.random() < 0.5, "threading": True, "oracles": [],
-           "uuid_seed": rs.getrandbits(32), "opcode": False}
+           "uuid_seed": rs.getrandbits(32), "opcode": rs.random() < 0.06}
     nres = rs.choice([1, 2])
     pre, inits = [], []
     for r in range(nres):
